@@ -81,6 +81,25 @@ emit(coroutine.status(co)); emit(coroutine.resume(co))`
 			w.GoFail(id, fmt.Sprintf("yield of 60 values to a resumer holding m=%d arguments on a registry of %d: rows %q (ok=%v err=%s %s)", m, regsize, rows, out.Ok, out.Err.String(), out.GoFail))
 		}
 	}
+	// 2b. a body RETURNING k values needs room for them once: every k that fits into the coroutine's and
+	// the resumer's registry arrives (the values already sit in place; a copy above the top would need 2k)
+	retMany := `local big = {}; for i = 1, 900 do big[i] = i end
+local co = coroutine.create(function() local x = 7; return x, unpack(big, 1, %d) end)
+local r = {coroutine.resume(co)}; emit(r[1], #r, r[2], r[#r], coroutine.status(co))
+local w = coroutine.wrap(function() return coroutine.yield() end); w(); local q = {w(unpack(big, 1, %d))}; emit(#q, q[#q])`
+	for k := regsize/2 - 60; k <= regsize-120; k += 3 * step {
+		src := fmt.Sprintf(retMany, k, k)
+		o := opt
+		out := luagen.Run(src, &luagen.RunOptions{Options: &o, Timeout: 20e9})
+		rows := traceRows(out)
+		ok := out.Ok && out.GoFail == "" && len(rows) == 2 && rows[0] == fmt.Sprintf(`true %d 7 %d "dead"`, k+2, k) && rows[1] == fmt.Sprintf("%d %d", k, k)
+		id := w.Add(lib.Case{Input: map[string]any{"limit": "return-many", "k": k, "src": src, "registry": regsize}, Observed: out.Summary(), Class: "limit-return-many",
+			Nontrivial: true, Coq: "CProg [] (Outcome [] (OOk []))"})
+		w.Meta.GoOnlyChecked++
+		if !ok {
+			w.GoFail(id, fmt.Sprintf("coroutine body returning %d values on a registry of %d: rows %q (ok=%v err=%s %s)", k+1, regsize, rows, out.Ok, out.Err.String(), out.GoFail))
+		}
+	}
 	// 3. the coroutine fails with a runtime error (or returns) while its resumer has hardly any room left for (false, message): whatever the
 	// resumer gets, the coroutine is dead and can never run again
 	crowdedDie := `local big = {}; for i = 1, 900 do big[i] = i end
